@@ -222,6 +222,7 @@ class _Gen:
         # unit-level switches: shapes that keep a unit away from generated Python are confined to a share of the units
         self.wrong_kind_names = draw(st.integers(0, 99)) < 35  # fields / nested enums carrying a hot name
         self.foreign_nested = draw(st.integers(0, 99)) < 35  # D7 / N3 shapes may be chosen
+        self.same_proto_names = draw(st.integers(0, 99)) < 30  # two files of the unit may declare the same proto name
         self.odd_import_names = draw(st.integers(0, 99)) < 35  # `import Tiger "x.bitproto"`: an import name that nested messages can shadow
 
     def width(self) -> int:
@@ -376,7 +377,12 @@ class _Gen:
 
     def file(self, fi: int, nfiles: int, protos: List[str], asn: List[str]) -> File:
         d = self.draw
-        f = File(protos[fi], protos[fi])
+        proto = protos[fi]
+        if fi > 0 and self.same_proto_names and d(st.integers(0, 1)) == 0:
+            # another FILE declaring the proto name of an earlier one (`shapes.bitproto` / `shapes_v1.bitproto`, both `proto
+            # shapes`): an importer can hold both only with an `as` name for one of them
+            proto = self.files[d(st.integers(0, fi - 1))].proto
+        f = File(proto, protos[fi])
         self.files.append(f)
         pending: List[Import] = []
         if fi > 0:
@@ -517,6 +523,8 @@ def use_labels(u: Use, site: Site) -> List[str]:
                     break
             if isinstance(first, Import):
                 labs.append("import:as" if first.as_name else "import:proto_name")
+                if any(i is not first and i.file.proto == first.file.proto for i in f.imports()):
+                    labs.append("import:same_proto_name_twice")  # two imported files declare one proto name (one is held under `as`)
                 if len(parts) >= 3 and isinstance(members(first).get(parts[1]), Import):
                     labs.append("import:two_hop")
             if enclosing_messages(u.target):
